@@ -941,6 +941,12 @@ class PEval:
                 return Iter([])
             if fname in ("repeat_n",) and len(args) == 2 and isinstance(args[1], int):
                 return Iter([a0] * args[1])
+        if isinstance(a0, Enum) and a0.adt.endswith("borrow::Cow"):
+            inner = a0.fields.get("0", UNKNOWN)
+            if fname in ("into_owned", "as_ref", "deref", "borrow", "to_owned", "to_string", "as_str", "clone", "to_mut", "into"):
+                return inner
+            if not isinstance(inner, (Struct, Enum)):
+                return self.call_named(path, fname, [inner] + args[1:], node, depth)
         if fname in ("call", "call_mut", "call_once") and "ops::function" in path and len(args) == 2:
             tup = args[1]
             return self.apply(a0, list(tup) if isinstance(tup, tuple) and tup is not UNIT else [], depth)
@@ -1281,6 +1287,60 @@ class PEval:
                     if r:
                         return some(x if fname == "find" else i)
                 return NONE
+            if fname == "windows" and len(args) == 2 and isinstance(args[1], int) and args[1] > 0:
+                return Iter([a0[i:i + args[1]] for i in range(0, len(a0) - args[1] + 1)])
+            if fname in ("chunks",) and len(args) == 2 and isinstance(args[1], int) and args[1] > 0:
+                return Iter([a0[i:i + args[1]] for i in range(0, len(a0), args[1])])
+            if fname in ("take_while", "skip_while", "map_while") and len(args) == 2:
+                out, i = [], 0
+                for i, x in enumerate(a0):
+                    r = self.apply(args[1], [x], depth)
+                    if fname == "map_while":
+                        if not (isinstance(r, Enum) and r.adt == OPTION):
+                            return self.unknown("map_while closure result")
+                        if r.variant == "None":
+                            break
+                        out.append(r.fields.get("0", UNKNOWN))
+                        continue
+                    r = self.truth(r)
+                    if r is UNKNOWN:
+                        return UNKNOWN
+                    if not r:
+                        return out if fname == "take_while" else a0[i:]
+                    if fname == "take_while":
+                        out.append(x)
+                return out if fname in ("take_while", "map_while") else []
+            if fname == "try_fold" and len(args) == 3:
+                acc = args[1]
+                for x in a0:
+                    r = self.apply(args[2], [acc, x], depth)
+                    if not (isinstance(r, Enum) and r.adt in (OPTION, RESULT, CONTROL_FLOW)):
+                        return self.unknown("try_fold closure result")
+                    if r.variant in ("None", "Err", "Break"):
+                        return r
+                    acc = r.fields.get("0", UNKNOWN)
+                # success: wrap like the closure does (Some / Ok / Continue)
+                return r.__class__(r.adt, r.variant, {"0": acc}) if a0 else self.unknown("try_fold on an empty sequence")
+            if fname in ("split_first", "split_last") and len(args) == 1:
+                if not a0:
+                    return NONE
+                return some((a0[0], a0[1:])) if fname == "split_first" else some((a0[-1], a0[:-1]))
+            if fname in ("concat", "join") and all(isinstance(x, str) for x in a0):
+                sep = args[1] if fname == "join" and len(args) == 2 and isinstance(args[1], str) else ""
+                return sep.join(a0)
+            if fname == "concat" and all(isinstance(x, list) for x in a0):
+                return [y for x in a0 for y in x]
+            if fname in ("step_by",) and len(args) == 2 and isinstance(args[1], int) and args[1] > 0:
+                return a0[::args[1]]
+            if fname == "nth" and len(args) == 2 and isinstance(args[1], int):
+                return some(a0[args[1]]) if 0 <= args[1] < len(a0) else NONE
+            if fname in ("min_by_key", "max_by_key") and len(args) == 2 and a0:
+                try:
+                    keyed = [(self.apply(args[1], [x], depth), x) for x in a0]
+                    pick = min if fname == "min_by_key" else max
+                    return some(pick(keyed, key=lambda kv: kv[0])[1])
+                except TypeError:
+                    return self.unknown("%s key" % fname)
             if fname == "find_map" and len(args) == 2:
                 for x in a0:
                     r = self.apply(args[1], [x], depth)
@@ -1429,6 +1489,23 @@ class PEval:
             if fname == "clear" and isinstance(r0, Ref):
                 r0.set("")
                 return UNIT
+            if fname == "write_str" and isinstance(r0, Ref) and len(args) == 2 and isinstance(args[1], str):
+                r0.set(a0 + args[1])
+                return ok(UNIT)
+            if fname == "write_char" and isinstance(r0, Ref) and len(args) == 2 and isinstance(args[1], int):
+                r0.set(a0 + chr(args[1]))
+                return ok(UNIT)
+            if fname == "write_fmt" and isinstance(r0, Ref) and len(args) == 2 and isinstance(args[1], Struct) and args[1].adt == "#FmtArgs":
+                txt = self.call_named("alloc::fmt::format", "format", [args[1]], None, depth)
+                if isinstance(txt, str):
+                    r0.set(a0 + txt)
+                    return ok(UNIT)
+                return self.unknown("write! with arguments that are not text")
+            if fname == "extend" and isinstance(r0, Ref) and len(args) == 2:
+                seq = args[1].rest() if isinstance(args[1], Iter) else args[1]
+                if isinstance(seq, list) and all(isinstance(x, (int, str)) and not isinstance(x, bool) for x in seq):
+                    r0.set(a0 + "".join(chr(x) if isinstance(x, int) else x for x in seq))
+                    return UNIT
             if fname == "pop" and isinstance(r0, Ref) and len(args) == 1:
                 if a0 == "":
                     return NONE
